@@ -71,7 +71,9 @@ def check(run, F, tier):
                     guarded = any(k2 == "used?" and m2 == mgr and x2 == x and t2 is True for (k2, m2, x2, t2, s2) in evs[:i])
                     announced = any(k2 == "announce" and x2 == x for (k2, m2, x2, t2, s2) in evs[i + 1:])
                     rec = sites.setdefault(skey, {"ok": True, "why": None, "p": None, "site": site})
-                    if "::send_stored::" in site[0]:
+                    if ("::send_stored::" in site[0] or site[0].endswith("::send_stored")) and "'elem'" in repr(conn.expand_all(interned[n], x)):
+                        # (the id of an element the store handed to its visitor - released in the visitor itself or after
+                        # the walk, from a list of planned steps)
                         # stored packets hold their id by construction (C06): release-of-stored-id shape, must be announced
                         if not announced:
                             rec.update(ok=False, why="release of a stored id without announcement", p=p)
